@@ -1,5 +1,6 @@
 import Adlt.Plugins.Anon
 import Adlt.Plugins.AnonStream
+import Adlt.Lc.Rename
 import Adlt.Plugins.Stage
 /-! # C19 — plugins keep the stream intact; anonymisation keeps its structure   (partial)
 
@@ -63,6 +64,31 @@ theorem C19_anon_stream_ctid (ms : List Anon.In) (p q : Anon.In × Anon.Out) (hp
     `C19_anon_format_injective` renders as a distinct pseudonym text -/
 theorem C19_anon_stream_bound (ms : List Anon.In) (p : Anon.In × Anon.Out) (hp : p ∈ ms.zip (run {} ms)) :
     1 ≤ p.2.1 ∧ p.2.1 ≤ (final {} ms).ecus.length := stream_ecu_bound ms p hp
+
+/-- **the lifecycle detector commutes with every injective renaming of the ECU ids**: on the renamed stream the final state
+    is the renamed final state -/
+theorem C19_detector_commutes_with_renaming (f : Nat → Nat) (hf : ∀ a b, f a = f b → a = b) (ms : List Lcm.Msg) :
+    Lcm.run (ms.map (Lcm.Msg.rn f)) = (Lcm.run ms).rn f := Lcm.run_rn hf ms
+
+/-- **lifecycles on an anonymised trace**: a renaming of the ECU ids that is injective on the ids of the stream - which the
+    anonymiser's is (`C19_anon_stream_ecu`), and times are not touched - changes nothing of what the detector reports but the
+    ECU names: the delivered messages carry the same lifecycle ids, the final table has the same ids, message counts, starts
+    and ends -/
+theorem C19_lifecycles_of_renamed_trace (ms : List Lcm.Msg) (g : Nat → Nat)
+    (hg : ∀ a ∈ ms.map (·.ecu), ∀ b ∈ ms.map (·.ecu), g a = g b → a = b) :
+    ∃ f : Nat → Nat, (∀ a b, f a = f b → a = b) ∧ (∀ m ∈ ms, f m.ecu = g m.ecu) ∧
+      Lcm.observe (Lcm.run (ms.map (Lcm.Msg.rn g))) =
+        { out := (Lcm.observe (Lcm.run ms)).out.map (Lcm.OutObs.rn f), tbl := (Lcm.observe (Lcm.run ms)).tbl.map (Lcm.TblObs.rn f) } :=
+  Lcm.observe_renamed ms g hg
+
+/-- non-vacuity: swapping the two ECU ids of a three-message stream (three lifecycles) -/
+example :
+    let ms : List Lcm.Msg := [
+      { index := 0, recv := 1000000, ecu := 1, tsDms := 10, hasTs := true, ctrlReq := false, lc := 0 },
+      { index := 1, recv := 1100000, ecu := 2, tsDms := 20, hasTs := true, ctrlReq := false, lc := 0 },
+      { index := 2, recv := 90000000, ecu := 1, tsDms := 30, hasTs := true, ctrlReq := false, lc := 0 }]
+    (Lcm.observe (Lcm.run (ms.map (Lcm.Msg.rn (fun e => 3 - e))))).tbl = (Lcm.observe (Lcm.run ms)).tbl.map (Lcm.TblObs.rn (fun e => 3 - e)) ∧
+    (Lcm.observe (Lcm.run ms)).tbl.map (·.ecu) = [1, 2, 1] := by decide +kernel
 
 /-- non-vacuity: a plugin that vetoes every second message it is handed is *not* conservative, and the stage then drops -/
 example : (Plg.pluginsProcess [{ proc := fun h m => (m, h.length % 2 == 0) }]
